@@ -24,6 +24,9 @@
 //!             text itself
 //!   soup      random token sequences
 //!   unicode   random characters, including non-ASCII blanks, letters, digits
+//!   shell     tree texts through the whole shell on the simulated OS:
+//!             `args "$((text))"` after assigning the variables, then the
+//!             variables read back (yash-semantics expansion/initial/arith.rs)
 
 use std::collections::{BTreeMap, BTreeSet, HashMap};
 use std::panic::{AssertUnwindSafe, catch_unwind};
@@ -31,6 +34,7 @@ use yash_arith::{ErrorCause, EvalError, SyntaxError, TokenError, Value};
 use yv_harness::cli::Args;
 use yv_harness::out::CasesWriter;
 use yv_harness::rng::Rng;
+use yv_harness::vsh;
 use yv_harness::{coq, json_str};
 
 type Vars = BTreeMap<String, String>;
@@ -122,7 +126,24 @@ fn run_impl(text: &str, vars: &Vars) -> (String, String, String) {
 }
 
 fn emit(w: &mut CasesWriter, stream: &str, text: &str, vars: &Vars) {
-    // classification of the non-ASCII characters of the text
+    let (out, shown, class) = run_impl(text, vars);
+    let term = format!("(KEval {} {} {} {})", class_table(text), coq::s(text), env_term(vars), out);
+    let json = format!(
+        "{{\"stream\":{},\"text\":{},\"vars\":{},\"impl\":{}}}",
+        json_str(stream),
+        json_str(text),
+        env_json(vars),
+        json_str(&shown)
+    );
+    w.count(&format!("stream:{stream}"));
+    w.count(&format!("answer:{class}"));
+    let nops = text.chars().filter(|c| "+-*/%<>=!&|^~?".contains(*c)).count();
+    w.count(&format!("operator_chars:{}", nops.min(8)));
+    let key = if nops >= 1 { Some(format!("{text}\u{0}{}", env_json(vars))) } else { None };
+    w.push(&term, &json, &[], key);
+}
+
+fn class_table(text: &str) -> String {
     let mut cls: BTreeSet<char> = BTreeSet::new();
     for c in text.chars() {
         if !c.is_ascii() {
@@ -142,21 +163,63 @@ fn emit(w: &mut CasesWriter, stream: &str, text: &str, vars: &Vars) {
             format!("({}, {})", coq::n(*c as u64), coq::n(k))
         })
         .collect();
-    let (out, shown, class) = run_impl(text, vars);
-    let term = format!("(KEval {} {} {} {})", coq::list(&tbl), coq::s(text), env_term(vars), out);
+    coq::list(&tbl)
+}
+
+/// The text through the whole shell.  The text must not contain characters the
+/// shell expands or quotes inside `$(( ))` and must have balanced parentheses.
+fn emit_shell(w: &mut CasesWriter, text: &str, vars: &Vars) {
+    assert!(!text.contains(['$', '`', '\\', '"', '\'']));
+    let mut script = String::new();
+    for (k, v) in vars {
+        assert!(!v.contains('\''));
+        script.push_str(&format!("{k}='{v}'\n"));
+    }
+    script.push_str(&format!("args \"$(({text}))\"\n"));
+    script.push_str("args");
+    for n in NAMES {
+        script.push_str(&format!(" \"${{{n}+s}}\" \"${n}\""));
+    }
+    script.push('\n');
+    let out = vsh::run_script(&script);
+    let args: Vec<&vsh::TraceItem> = out.trace.iter().filter(|t| t.kind == "args").collect();
+    let (ans, shown, class): (String, String, &str) = if out.panicked.is_some() {
+        ("AnsPanic".into(), format!("PANIC {:?}", out.panicked), "panic")
+    } else if args.len() == 2
+        && args[0].args.len() == 1
+        && args[1].args.len() == 2 * NAMES.len()
+        && args[0].args[0].parse::<i64>().is_ok()
+    {
+        let value: i64 = args[0].args[0].parse().unwrap();
+        let mut after = Vars::new();
+        for (i, n) in NAMES.iter().enumerate() {
+            if args[1].args[2 * i] == "s" {
+                after.insert(n.to_string(), args[1].args[2 * i + 1].clone());
+            }
+        }
+        (
+            format!("(AnsValue {} {})", coq::z(value as i128), env_term(&after)),
+            format!("{} {}", value, env_json(&after)),
+            "value",
+        )
+    } else if args.is_empty() && out.status != 0 && !out.deadlock && !out.timeout {
+        ("AnsError".into(), format!("error (status {})", out.status), "error")
+    } else {
+        // anything else: the expansion was not a decimal number, the shell went on
+        // after an error, hung, ...
+        ("AnsOther".into(), format!("unexpected: {out:?}"), "other")
+    };
+    let term = format!("(KShell {} {} {} {})", class_table(text), coq::s(text), env_term(vars), ans);
     let json = format!(
-        "{{\"stream\":{},\"text\":{},\"vars\":{},\"impl\":{}}}",
-        json_str(stream),
+        "{{\"stream\":\"shell\",\"text\":{},\"vars\":{},\"script\":{},\"impl\":{}}}",
         json_str(text),
         env_json(vars),
+        json_str(&script),
         json_str(&shown)
     );
-    w.count(&format!("stream:{stream}"));
-    w.count(&format!("answer:{class}"));
-    let nops = text.chars().filter(|c| "+-*/%<>=!&|^~?".contains(*c)).count();
-    w.count(&format!("operator_chars:{}", nops.min(8)));
-    let key = if nops >= 1 { Some(format!("{text}\u{0}{}", env_json(vars))) } else { None };
-    w.push(&term, &json, &[], key);
+    w.count("stream:shell");
+    w.count(&format!("shell_answer:{class}"));
+    w.push(&term, &json, &[], Some(format!("sh\u{0}{text}\u{0}{}", env_json(vars))));
 }
 
 // ---------------------------------------------------------------------------
@@ -456,8 +519,16 @@ fn lit(v: i128) -> String {
 
 fn main() {
     let args = Args::parse();
+    if let Some(n) = args.opt("deep") {
+        // manual probe of the recursion depth (not part of the check)
+        let n: usize = n.parse().expect("deep=N");
+        let text = format!("{}1{}", "(".repeat(n), ")".repeat(n));
+        let mut env: HashMap<String, String> = HashMap::new();
+        println!("{:?}", yash_arith::eval(&text, &mut env).map_err(|e| format!("{:?}", e.cause)));
+        return;
+    }
     let mut rng = Rng::new(args.seed);
-    let mut w = CasesWriter::new(&args, "Yv.C03.Run", if args.thorough() { 1500 } else { 150 });
+    let mut w = CasesWriter::new(&args, "Yv.C03.Run", if args.thorough() { 1000 } else { 150 });
 
     // -- ascii -------------------------------------------------------------------
     {
@@ -515,6 +586,16 @@ fn main() {
         "a = 1, 2", "a == 1 ? 10 : 20", "(((((1)))))", "1 + + 2", "1 - - 2", "1 +++ 2", "x +++ 2",
         "x+++x", "x---x", "1<2<3", "3>2>1", "1<<1<<1", "64>>1>>1", "2*3/4%5", "1-2+3", "!0+1", "~1*2",
         "-2*3", "- 2 * - 3", "1 <= 2 != 2 >= 3", "1 & 2 | 3 ^ 4 && 5 || 6",
+        // one text per pair of adjacent precedence levels (value differs if the
+        // two levels are swapped or merged) and per left-associative level
+        "0 && 0 | 1", "1 | 1 ^ 1", "1 ^ 1 & 0", "2 & 2 == 2", "0 == 1 < 0", "1 < 1 << 1",
+        "1 << 1 + 1", "1 + 2 * 3", "1 || 0 ? 2 : 3", "x = 0 ? 1 : 2", "0 && 1 || 1", "1 || 1 && 0",
+        "2 * 3 + 1", "7 - 2 * 3", "1 + 1 << 1", "1 << 1 < 1", "1 < 0 == 0", "2 == 2 & 2",
+        "0 & 1 ^ 1", "1 ^ 1 | 1", "1 | 0 && 0", "8 / 4 / 2", "7 % 4 % 2", "8 / 4 * 2", "8 * 4 / 2",
+        "7 % 4 * 2", "1 << 1 << 2", "64 >> 2 >> 1", "64 >> 2 << 1", "2 == 2 == 1", "1 != 1 != 1",
+        "3 >= 2 >= 1", "1 <= 1 <= 0", "5 - 3 + 1", "5 + 3 - 1", "~1 + 1", "!1 + 1", "-1 - -1",
+        "!0 == 1", "~0 & 1", "- 3 % 2", "x = y = 2 + 1", "x += y = 2", "x ? y : 1 ? 2 : 3",
+        "1 ? 0 : 1 ? 2 : 3", "0 ? 1 : 0 ? 2 : 3",
     ];
     for t in corpus {
         emit(&mut w, "corpus", t, &base);
@@ -531,7 +612,7 @@ fn main() {
         ] {
             vals.push(v.to_string());
         }
-        let n = args.scale(40, 2000);
+        let n = args.scale(40, 1500);
         for k in 0..n {
             let mut r = rng.fork(0x5000 + k as u64);
             let mut s = String::new();
@@ -604,16 +685,22 @@ fn main() {
         if args.thorough() {
             for (o1, _) in &BIN_OPS[..18] {
                 for (o2, _) in &BIN_OPS[..18] {
-                    for _ in 0..60 {
+                    for _ in 0..40 {
                         let (a, b, c) = (*r.pick(&SMALL), *r.pick(&SMALL), *r.pick(&SMALL));
                         emit(&mut w, "triples", &format!("{} {} {} {} {}", lit(a), o1, lit(b), o2, lit(c)), &vars);
                     }
                 }
             }
         } else {
-            for _ in 0..300 {
-                let (o1, _) = r.pick(&BIN_OPS);
-                let (o2, _) = r.pick(&BIN_OPS);
+            for k in 0..400 {
+                let (o1, p1) = *r.pick(&BIN_OPS);
+                let (mut o2, mut p2) = *r.pick(&BIN_OPS);
+                if k % 2 == 0 {
+                    // operators of the same or an adjacent level
+                    while p2.abs_diff(p1) > 1 {
+                        (o2, p2) = *r.pick(&BIN_OPS);
+                    }
+                }
                 let (a, b, c) = (*r.pick(&SMALL), *r.pick(&SMALL), *r.pick(&SMALL));
                 emit(&mut w, "triples", &format!("{} {} {} {} {}", lit(a), o1, lit(b), o2, lit(c)), &vars);
             }
@@ -621,7 +708,7 @@ fn main() {
     }
 
     // -- trees -----------------------------------------------------------------------
-    let n = args.scale(700, 24000);
+    let n = args.scale(700, 16000);
     for k in 0..n {
         let mut r = rng.fork(0x1000 + k as u64);
         let depth = 1 + r.below(5);
@@ -633,8 +720,34 @@ fn main() {
         emit(&mut w, "tree", &s, &vars);
     }
 
+    // -- shell -------------------------------------------------------------------------
+    let n = args.scale(150, 2500);
+    for k in 0..n {
+        let mut r = rng.fork(0x4000 + k as u64);
+        let depth = 1 + r.below(4);
+        let t = random_tree(&mut r, depth);
+        let keep = *r.pick(&[100u32, 100, 100, 90]);
+        let mut s = String::new();
+        t.render(1, keep, &mut r, &mut s);
+        let mut vars = random_vars(&mut r);
+        vars.retain(|_, v| !v.contains('\''));
+        emit_shell(&mut w, &s, &vars);
+    }
+    for t in [
+        "1+2*3", "x=010", "a = b = 3", "u", "u++ + u", "bad", "1/0", "1 ? a : b = 7", "m - 1", "-m",
+        "(1", "1 +", "08", "e", "o + h",
+    ] {
+        let mut vars = Vars::new();
+        vars.insert("m".into(), "-9223372036854775808".into());
+        vars.insert("x".into(), "5".into());
+        if t == "(1" {
+            continue; // the shell's own parser decides where `$((` ends
+        }
+        emit_shell(&mut w, t, &vars);
+    }
+
     // -- soup --------------------------------------------------------------------------
-    let n = args.scale(300, 8000);
+    let n = args.scale(300, 6000);
     for k in 0..n {
         let mut r = rng.fork(0x2000 + k as u64);
         let len = 1 + r.below(9);
@@ -644,7 +757,7 @@ fn main() {
     }
 
     // -- unicode -------------------------------------------------------------------------
-    let n = args.scale(200, 6000);
+    let n = args.scale(200, 4000);
     for k in 0..n {
         let mut r = rng.fork(0x3000 + k as u64);
         let len = 1 + r.below(10);
